@@ -74,13 +74,13 @@ Record lst := mkL {
   wposn : N; fposn : N; frame : N; reset_interval : N;
   R0 : N; R1 : N; R2 : N; blen : N; brem : N;
   intel_filesize : N; intel_started : bool; btype : N; header_read : bool;
-  is_delta : bool; offset : N; length : N;
+  is_delta : bool; offset : N;
   pre_len : tr; main_len : tr; len_len : tr; ali_len : tr;
   pre_tab : tr; main_tab : tr; len_tab : tr; ali_tab : tr; len_empty : bool;
   e8 : tr; osel : osrc; optr : N; oend : N; err : N }.
 #[export] Instance etaL : Settable _ := settable! mkL
   <bb; bl; win; wsize; refsize; num_offsets; wposn; fposn; frame; reset_interval; R0; R1; R2; blen; brem;
-   intel_filesize; intel_started; btype; header_read; is_delta; offset; length;
+   intel_filesize; intel_started; btype; header_read; is_delta; offset;
    pre_len; main_len; len_len; ali_len; pre_tab; main_tab; len_tab; ali_tab; len_empty; e8; osel; optr; oend; err>.
 
 Definition lm (A : Type) := lst -> sprog (N + (A * lst)).      (* inl status: lzxd_decompress returns lzx->error = status *)
@@ -96,6 +96,7 @@ Definition avail : lm unit := fun s => SDo SAvail (fun _ => SRet (inr (tt, s))).
 Definition next_byte : lm N := fun s => SDo SNext (fun b => SRet (inr (b, s))).
 Definition copy_in (n : N) : lm (list N) := fun s => SDo (SCopyIn (N.to_nat n)) (fun l => SRet (inr (l, s))).
 Definition write (d : list N) : lm unit := fun s => SDo (SWrite d) (fun _ => SRet (inr (tt, s))).
+Definition get_hint : lm N := fun s => SDo SHint (fun h => SRet (inr (h, s))).     (* lzx->length as it is now *)
 Definition M32 := 4294967296.
 
 (* READ_BYTES: INJECT_BITS((b1<<8)|b0, 16); only reached with bits_left <= 16 *)
@@ -333,11 +334,12 @@ Fixpoint frame_loop (fuel : nat) (end_frame : N) (out_bytes : N) : lm N :=
             i <- read_bits 1 ;;
             ij <- (if i =? 1 then a <- read_bits 16 ;; b <- read_bits 16 ;; ret (N.lor (N.shiftl a 16) b) else ret 0) ;;
             modify (fun s => s <| intel_filesize := ij |> <| header_read := true |>)) ;;
-    s1' <- get ;;
-    _ <- (if length s1' =? 0 then avail else ret tt) ;;   (* if (!lzx->length) READ_IF_NEEDED; (fix: late output-length hint) *)
+    len0 <- get_hint ;;
+    _ <- (if len0 =? 0 then avail else ret tt) ;;   (* if (!lzx->length) READ_IF_NEEDED; (fix: late output-length hint) *)
+    len1 <- get_hint ;;                              (* the read may have made the CAB block reader set lzx->length *)
     s2 <- get ;;
-    let frame_size := if negb (length s2 =? 0) && (Z.of_N (length s2) - Z.of_N (offset s2) <? 32768)%Z
-                      then u32 (Z.of_N (length s2) - Z.of_N (offset s2))%Z else FRAME_SIZE in
+    let frame_size := if negb (len1 =? 0) && (Z.of_N len1 - Z.of_N (offset s2) <? 32768)%Z
+                      then u32 (Z.of_N len1 - Z.of_N (offset s2))%Z else FRAME_SIZE in
     let bytes_todo := s32 (u32 (Z.of_N (fposn s2) + Z.of_N frame_size - Z.of_N (wposn s2))%Z) in
     _ <- todo_loop 70000 bytes_todo ;;
     s3 <- get ;;
@@ -374,14 +376,14 @@ Definition decompress (out_bytes : N) : lm unit :=
   rest <- frame_loop 70000 end_frame ob ;;
   if negb (rest =? 0) then fail ERR_DECRUNCH else ret tt.
 
-Definition lzx_init (window_bits reset_int : N) (output_length : N) (delta_ : bool) (refdata : list N) : lst :=
+Definition lzx_init (window_bits reset_int : N) (delta_ : bool) (refdata : list N) : lst :=
   let ws := N.shiftl 1 window_bits in
   reset_state
   {| bb := 0; bl := 0; win := put_list refdata Emp (ws - N.of_nat (List.length refdata)); wsize := ws;
      refsize := N.of_nat (List.length refdata); num_offsets := N.shiftl (nthN lzx_position_slots (window_bits - 15)) 3;
      wposn := 0; fposn := 0; frame := 0; reset_interval := reset_int; R0 := 1; R1 := 1; R2 := 1; blen := 0; brem := 0;
      intel_filesize := 0; intel_started := false; btype := 0; header_read := false; is_delta := delta_;
-     offset := 0; length := output_length; pre_len := Emp; main_len := Emp; len_len := Emp; ali_len := Emp;
+     offset := 0; pre_len := Emp; main_len := Emp; len_len := Emp; ali_len := Emp;
      pre_tab := Emp; main_tab := Emp; len_tab := Emp; ali_tab := Emp; len_empty := false;
      e8 := Emp; osel := OWin; optr := 0; oend := 0; err := 0 |}.
 
@@ -399,24 +401,24 @@ Fixpoint calls (reqs : list N) (s : lst) (acc : list N) : sprog (list N) :=
 
 Definition lzx_ideal (window_bits reset_int output_length : N) (delta_ : bool) (refdata inp : list N) (reqs : list N)
   : list N * list N :=
-  match ideal EofPad2 (calls reqs (lzx_init window_bits reset_int output_length delta_ refdata) [])
+  match ideal EofPad2 output_length (calls reqs (lzx_init window_bits reset_int delta_ refdata) [])
               {| irest := inp ++ pad EofPad2; iout := [] |} with
   | (SVal sts, s) => (sts, rev_append (iout s) [])
   | (SStop e, s) => ([e], rev_append (iout s) [])
   end.
 
-Definition lzx_call (s : lst) (i : ist) (n : N) : N * lst * ist :=
-  match ideal EofPad2 (decompress n s) i with
+Definition lzx_call (hint : N) (s : lst) (i : ist) (n : N) : N * lst * ist :=
+  match ideal EofPad2 hint (decompress n s) i with
   | (SVal (inl e), i') => (e, s <| err := e |>, i')
   | (SVal (inr (_, s')), i') => (0, s', i')
   | (SStop e, i') => (e, s <| err := e |>, i')
   end.
-Fixpoint lzx_calls (reqs : list N) (s : lst) (i : ist) (acc : list N) : list N * ist :=
+Fixpoint lzx_calls (hint : N) (reqs : list N) (s : lst) (i : ist) (acc : list N) : list N * ist :=
   match reqs with
   | [] => (rev_append acc [], i)
-  | n :: rest => let '(st, s', i') := lzx_call s i n in lzx_calls rest s' i' (st :: acc)
+  | n :: rest => let '(st, s', i') := lzx_call hint s i n in lzx_calls hint rest s' i' (st :: acc)
   end.
 Definition lzx_run (window_bits reset_int output_length : N) (delta_ : bool) (refdata inp reqs : list N) : list N * list N :=
-  let '(sts, i) := lzx_calls reqs (lzx_init window_bits reset_int output_length delta_ refdata)
+  let '(sts, i) := lzx_calls output_length reqs (lzx_init window_bits reset_int delta_ refdata)
                              {| irest := inp ++ pad EofPad2; iout := [] |} [] in
   (sts, rev_append (iout i) []).
